@@ -130,8 +130,16 @@ def gen_norm_building(rng):
         i = rng.choice([21, 22, -4])
         b.add("CONSUMO", id=i, service="CAL", carrier="ELECTRICIDAD", values=gen.vec(rng, n))
         b.add("CONSUMO", id=i, service="REF", carrier="ELECTRICIDAD", values=gen.vec(rng, n))
-        b.add("SALIDA", id=i, service="CAL", values=gen.vec(rng, n, pzero=0.3))
-        b.add("SALIDA", id=i, service="REF", values=[-x for x in gen.vec(rng, n, pzero=0.3)])
+        oc, orf = gen.vec(rng, n, pzero=0.3), [-x for x in gen.vec(rng, n, pzero=0.3)]
+        if rng.random() < 0.4:
+            # some steps where the system is nearly idle: outputs of a few millionths of a kWh (the shares are ratios: still defined)
+            for t in range(n):
+                if rng.random() < 0.5:
+                    f = Fraction(1, 2 ** rng.choice([12, 16, 20]))
+                    oc[t], orf[t] = oc[t] * f, orf[t] * f
+            b.tags.add("aux_tiny_output")
+        b.add("SALIDA", id=i, service="CAL", values=oc)
+        b.add("SALIDA", id=i, service="REF", values=orf)
         b.add("AUX", id=i, values=gen.vec(rng, n, hi=64 * 20, pzero=0.1))
         b.tags.add("aux_heat_cool")
     elif r < 0.35:
@@ -199,6 +207,9 @@ def compare_case(c):
     if "ok" in r:
         if m[0] != "ok":
             return [{"what": "impl Ok, model %s" % (m[:2],)}]
+        nf = nonfinite_in(r["ok"]["data"])
+        if nf:
+            return [{"what": "the implementation returns a value that is not a finite number for a finite input", "component": {k: nf[0].get(k) for k in ("id", "kind", "service", "values")}}]
         return compare_comps(r["ok"]["data"], comps_from_rows(m[1]))
     if "err" in r:
         if m[0] != "err" or m[1] != r["err"]:
@@ -229,6 +240,11 @@ def _vals(e):
     return [Fraction(v) for v in e["values"]]
 
 
+def nonfinite_in(comps):
+    """components of the implementation's answer holding a value that is not a finite number (the runner writes them as text)"""
+    return [e for e in comps if any(isinstance(v, str) and v.strip().lower().lstrip("+-") in ("nan", "inf", "infinity") for v in e["values"])]
+
+
 def _sumv(vs, n):
     out = [Fraction(0)] * n
     for v in vs:
@@ -245,6 +261,9 @@ def oracle_c05(c):
         return bad
     raw = json_to_dump(c.cj)["data"]
     norm = r["ok"]["data"]
+    nf = nonfinite_in(norm)
+    if nf:
+        return [("normalisation of finite components produced a value that is not a finite number", {"id": nf[0].get("id"), "kind": nf[0].get("kind"), "values": nf[0]["values"][:12]})]
     n = max([len(e["values"]) for e in raw] + [1])
     tol = Fraction(1, 100000) * max([abs(Fraction(v)) for e in raw for v in e["values"]] + [Fraction(1)]) + Fraction(1, 1000000)
     # (a) every declared non-AUX component is kept unchanged
@@ -314,6 +333,11 @@ def oracle_c06(c):
                         {"error": r.get("msg", "")[:200]}))
         return bad
     norm = r["ok"]["data"]
+    nf = nonfinite_in(norm)
+    if nf:
+        return [("an auxiliary share is not a finite number (finite input)" if nf[0].get("kind") == "Aux" else
+                 "normalisation of finite components produced a value that is not a finite number",
+                 {"id": nf[0].get("id"), "kind": nf[0].get("kind"), "service": nf[0].get("service"), "values": nf[0]["values"][:12]})]
     for i in aux_ids:
         declared = _sumv([_vals(e) for e in raw if e["kind"] == "Aux" and e["id"] == i], n)
         after_list = [e for e in norm if e["kind"] == "Aux" and e["id"] == i]
